@@ -56,6 +56,10 @@ SYSTEMS = {
     "birth": {"network": {"species": [{"label": "A", "density": 2}, {"label": "B", "density": 3, "D": 0.5}],
                            "reactions": [{"eq": " -> A", "k+": 3}]},
                "space": {"w": 2, "h": 1, "d": 1}},
+    # amounts above the Poisson / normal switch of the initial-state redistribution (an odd number of such entries)
+    "big": {"network": {"species": [{"label": "A", "density": {"a": 150, "b": 0}, "D": 0.01}, {"label": "B", "density": 120, "D": 0.02}],
+                         "reactions": [{"eq": "A -> B", "k+": 0.02}], "environments": ["a", "b"]},
+             "space": {"w": 2, "h": 1, "d": 1, "cell_env": [0, 1]}},
     # reversible with two environments and a chemostat
     "rev": {"network": {"species": [{"label": "A", "density": {"a": 6, "b": 2}, "D": 2},
                                      {"label": "B", "density": 4, "D": {"a": 1, "b": 0}, "chstt": {"b": True}}],
